@@ -24,7 +24,7 @@ RULE = ('cases are host applications: 0-8 resources (names with "secret" as pref
         'distinct by hash of the host description')
 ASSUMPTIONS = ['"secret" is matched as a lower-case substring of the resource name, as the statement spells it',
                'visible-control expectations are dropped for a host that contains a resource whose repr raises (the whole section is then reported as failed inline)']
-REQUIRED_REACH = ['secret-resources-rendered', 'redaction-marker-seen:html', 'redaction-marker-seen:json', 'visible-control-seen:html',
+REQUIRED_REACH = ['fault-arguments:none', 'middleware:raising-repr', 'middleware:surrogate-repr', 'secret-resources-rendered', 'redaction-marker-seen:html', 'redaction-marker-seen:json', 'visible-control-seen:html',
                   'visible-control-seen:json', 'json-view-parsed', 'cookie-key-hosts', 'depth:2', 'name:prefix', 'name:infix', 'name:suffix',
                   'value:bytes', 'value:rawbytes', 'value:number', 'value:nested', 'value:object-repr', 'value:long-nospace', 'value:long-words', 'value:url-like', 'value:tuple', 'value:surrogate-str', 'value:nonascii', 'value:mixed-keys', 'value:self-ref', 'value:equal-twin', 'value:bad-repr', 'inline-section-failure-seen', 'host-context-processor', 'route:render-arg-object',
                   'fault-injected', 'same-meta-application-asked-through-two-applications']
@@ -114,7 +114,8 @@ def gen_host(rng, n):
     routes = [rng.pick(['func', 'lambda', 'method', 'callable', 'static', 'classm', 'decorated', 'reroute', 'staticfile', 'staticapp',
                         'subapp', 'render-arg', 'render-arg-object', 'partial-render', 'methods'])
               for _ in range(rng.randint(1, 8))]
-    mws = [rng.pick(['cookie', 'cookie', 'stats', 'gzip', 'hostile-repr', 'getparam']) for _ in range(rng.randint(0, 3))]
+    mws = [rng.pick(['cookie', 'cookie', 'stats', 'gzip', 'hostile-repr', 'getparam', 'raising-repr', 'always-raising-repr', 'surrogate-repr', 'nonascii-repr'])
+           for _ in range(rng.randint(0, 3))]
     mws = [m for i, m in enumerate(mws) if i == mws.index(m)]      # one instance per kind (two would offer the same name)
     return {'resources': res, 'routes': routes, 'mws': mws, 'cookie_key': sentinel('str') + 'KEY', 'depth': rng.pick([1, 1, 2]),
             'prefix': rng.pick(['/_meta/', '/_meta', '/admin/meta/', '/m']), 'factory': rng.chance(0.5),
@@ -124,6 +125,8 @@ def gen_host(rng, n):
                         if rng.chance(0.2) else []),
             # a system call one of the informational sections depends on fails while the page is computed
             'fault': rng.pick(sorted(FAULTS)) if rng.chance(0.2) else None,
+            # ... with the arguments such an error usually carries, without any (TimeoutError()), or with odd ones
+            'fault_args': rng.pick(['usual', 'usual', 'none', 'none', 'empty-str', 'non-str', 'many']),
             # depth 2: the application in the middle is also served on its own (same MetaApplication object) and asked first
             'warm_inner': rng.chance(0.4)}
 
@@ -151,9 +154,22 @@ def faulty_module(real, name, exc):
     return m
 
 
+def fault_exception(fault, how):
+    exc = FAULTS[fault]
+    if how == 'none':
+        return type(exc)()
+    if how == 'empty-str':
+        return type(exc)('')
+    if how == 'non-str':
+        return type(exc)(b'\xff raw', 7) if not isinstance(exc, UnicodeError) else type(exc)(None)
+    if how == 'many':
+        return type(exc)(5, 'five', 'third', None, 'fifth') if isinstance(exc, OSError) else type(exc)('a', 'b', 'c')
+    return exc
+
+
 class inject_fault(object):
-    def __init__(self, fault):
-        self.fault, self.proxy = fault, None
+    def __init__(self, fault, how='usual'):
+        self.fault, self.proxy, self.how = fault, None, how
 
     def __enter__(self):
         if self.fault:
@@ -161,7 +177,7 @@ class inject_fault(object):
             modname, func = self.fault.split('.')
             self.real = getattr(cm, modname, None)
             if self.real is not None:
-                self.proxy = faulty_module(self.real, func, FAULTS[self.fault])
+                self.proxy = faulty_module(self.real, func, fault_exception(self.fault, self.how))
                 setattr(cm, modname, self.proxy)
         return self
 
@@ -268,10 +284,42 @@ def build_host(host):
 
         def __repr__(self):
             return '<Hostile "&<b>\'{x}>'
+    class RaisingRepr(Middleware):
+        # describes itself by something it only has once it has served a request
+        def request(self, next):
+            r = next()
+            self.last_status = r.status_code
+            return r
+
+        def __repr__(self):
+            return '<RaisingRepr last=%s>' % self.last_status
+
+    class AlwaysRaisingRepr(Middleware):
+        def request(self, next):
+            return next()
+
+        def __repr__(self):
+            raise RuntimeError('no description available')
+
+    class SurrogateRepr(Middleware):
+        # configured with a file-system path that is not UTF-8 (os.fsdecode keeps such bytes as lone surrogates)
+        def request(self, next):
+            return next()
+
+        def __repr__(self):
+            return '<SurrogateRepr dir=%s>' % os.fsdecode(b'/srv/t\xe9l\xe9chargements')
+
+    class NonAsciiRepr(Middleware):
+        def request(self, next):
+            return next()
+
+        def __repr__(self):
+            return '<NonAsciiRepr r\u00e9pertoire=\u65e5\u672c Zoe\u0308>'
     mws = []
     for m in host['mws']:
         mws.append({'cookie': lambda: SignedCookieMiddleware(secret_key=host['cookie_key'].encode('ascii')),
-                    'stats': StatsMiddleware, 'gzip': GzipMiddleware, 'hostile-repr': Hostile,
+                    'stats': StatsMiddleware, 'gzip': GzipMiddleware, 'hostile-repr': Hostile, 'raising-repr': RaisingRepr, 'always-raising-repr': AlwaysRaisingRepr,
+                    'surrogate-repr': SurrogateRepr, 'nonascii-repr': NonAsciiRepr,
                     'getparam': lambda: GetParamMiddleware(['page'])}[m]())
     if host.get('ctxproc'):
         mws.append(ContextProcessor(required=list(host['ctxproc'])))
@@ -319,11 +367,12 @@ def forms_of(sentinel):
 
 
 def judge(sh, host, record=True):
-    with inject_fault(host.get('fault')) as fi:
+    with inject_fault(host.get('fault'), host.get('fault_args') or 'usual') as fi:
         _judge(sh, host, record, fi)
     if fi.fired:
         sh.hit('fault-injected')
         sh.hit('fault:' + host['fault'])
+        sh.hit('fault-arguments:' + (host.get('fault_args') or 'usual'))
 
 
 def _judge(sh, host, record, fi):
@@ -349,6 +398,9 @@ def _judge(sh, host, record, fi):
         sh.hit('cookie-key-hosts')
     if host.get('ctxproc'):
         sh.hit('host-context-processor')
+    for m in host['mws']:
+        if m.endswith('-repr'):
+            sh.hit('middleware:' + m)
     if 'render-arg-object' in host['routes'] and host['factory']:
         sh.hit('route:render-arg-object')
     for r in host['resources']:
